@@ -1,5 +1,5 @@
 """C13 — which building operations are accepted follows the documented typestate."""
-from vmon import gen, prog
+from vmon import gen, objs, prog
 from vmon.ref import typestate as ts
 from vmon.snap import state_key
 
@@ -69,18 +69,24 @@ def probes(rng, m: ts.Model, g: gen.ProgGen) -> list[dict]:
     out.append({"op": "config_detuning_map", "dmm_id": gen.pick(rng, dm),
                 "map": ({"by": "qubits", "ids": list(g.qids), "weights": [1.0] * len(g.qids)} if not m.mappable else
                         {"by": "traps", "traps": g.reg["traps"], "weights": [1.0] * len(g.reg["traps"])})})
-    out.append({"op": "config_slm_mask", "qubits": [g.qids[0]], "dmm_id": gen.pick(rng, dm)})
+    # (on a parametrized sequence config_slm_mask is deferred unvalidated: an unknown DMM id is accepted and then
+    #  breaks `declared_channels` with a KeyError - outside the statement, see DESIGN 7.4; only valid ids are probed there)
+    dm_slm = dm if not m.param else dm[:-1]
+    if dm_slm:
+        out.append({"op": "config_slm_mask", "qubits": [g.qids[0]], "dmm_id": gen.pick(rng, dm_slm)})
     out.append({"op": "phase_shift", "phi": 1.0, "targets": [], "basis": gen.pick(rng, ["digital", "ground-rydberg", "XY"])})
     out.append({"op": "set_magnetic_field", "b": [0.0, 0.0, 30.0]})
     out.append({"op": "get_duration"})
     out.append({"op": "sample"})
+    out.append({"op": "estimate_added_delay", "pulse": pulse, "ch": n})
+    out.append({"op": "current_phase_ref", "q": g.qids[0], "basis": gen.pick(rng, ["digital", "ground-rydberg", "XY"])})
     if len(m.chans) >= 1:
         out.append({"op": "align", "chs": rng.sample(names, min(len(names), 2))})
     if rng.random() < 0.15:
         out.append({"op": "measure", "basis": gen.pick(rng, sorted(m.bases()) or ["ground-rydberg"])})
-    if rng.random() < 0.08:
+    if rng.random() < 0.25:
         out.append({"op": "declare_variable", "name": gen.pick(rng, ["v1", "v2", "qubits"]), "dtype": "int"})
-    if m.vars and rng.random() < 0.3:
+    if m.vars and rng.random() < 0.4:
         v = sorted(m.vars)[0]
         out.append({"op": "delay", "duration": {"e": "var", "name": v}, "ch": n})
     for o in out:
@@ -102,15 +108,20 @@ def run_case(ctx, idx, rng, tier):
 def _run_case(ctx, idx, rng, tier):
     dev = c13_device(rng)
     reg = gen.gen_register(rng, dev, nmin=1, nmax=4, kind=gen.wchoice(rng, {"reg": 0.8, "mappable": 0.2}))
-    r = prog.Runner(ctx, dev, reg, [])
+    r = prog.Runner(ctx, dev, reg, [], env=objs.Env("param"))  # variable expressions resolve to declared Variables
     reusable = dev.get("reusable_channels", False) or dev.get("name") == "MockDevice"
     slm = dev.get("supports_slm_mask", dev.get("name") in ("MockDevice", "DigitalAnalogDevice"))
     m = ts.Model(r.chspecs, reusable, bool(slm), reg["kind"] == "mappable", reg["ids"])
     g = gen.ProgGen(rng, dev, reg, r.chspecs, weights=WEIGHTS)
     g.pulse_fn = lambda rr, c, ph: gen.gen_pulse(rr, c, phase=ph, pps_p=0.0, arb=0.0)
+    st = {"measured_after_param": False}
 
     def do(op, probe):
+        if op["op"] == "config_slm_mask" and m.param and op.get("dmm_id", "dmm_0") not in m.spec:
+            return False  # see probes(): not probed on a parametrized sequence
         verdict, why = m.judge(op)
+        # known root cause: a sequence measured *before* it became parametrized forgets that it is measured
+        forgot = m.measured and not st["measured_after_param"] and (m.param or m.uses_var(op))
         ev = r.step(op)
         ok = ev.exc is None and ev.stage == "call"
         ctx.count("judged:" + verdict)
@@ -121,12 +132,16 @@ def _run_case(ctx, idx, rng, tier):
             ctx.count("discarded_after_C09")  # partial effect of a raising call: reported by C09, walk abandoned
             raise Tainted()
         if verdict == ts.REFUSE and ok:
+            mech = "measured-before-parametrized-reports-unmeasured" if (forgot and why.startswith("measured")) else \
+                f"accepted:{op['op']}:{why.split(' ')[0]}"
             ctx.violation("accepted-in-refusing-mode", f"{op['op']} was accepted although the mode forbids it ({why}); "
-                          f"mode={m.mode} measured={m.measured} parametrized={m.param}", f"accepted:{op['op']}:{why.split(' ')[0]}")
+                          f"mode={m.mode} measured={m.measured} parametrized={m.param}", mech)
         if verdict == ts.ALLOW and probe and not ok:
             ctx.violation("refused-in-allowing-mode", f"{op['op']} with valid arguments was refused although the mode admits "
                           f"it: {type(ev.exc).__name__}: {str(ev.exc)[:140]}; mode={m.mode}", f"refused:{op['op']}:{type(ev.exc).__name__}")
         if ok:
+            if op["op"] == "measure" and m.param:
+                st["measured_after_param"] = True
             m.advance(op)
         g.update(op, ok)
         # ---- queries must agree with the automaton -------------------------------------------
@@ -138,7 +153,11 @@ def _run_case(ctx, idx, rng, tier):
                               f"model {m.param}", f"query:is_parametrized:{'ok' if ok else 'after-raise'}")
                 m.param = seq.is_parametrized()
             if seq.is_measured() != m.measured:
-                ctx.violation("query", f"is_measured()={seq.is_measured()}, model {m.measured}", "query:is_measured")
+                lost = m.measured and m.param and not st["measured_after_param"]
+                ctx.violation("query", f"is_measured()={seq.is_measured()}, model {m.measured}",
+                              "measured-before-parametrized-reports-unmeasured" if lost else "query:is_measured")
+                if lost:
+                    raise Tainted()  # everything after is a consequence of this one defect
             for nme, c in m.chans.items():
                 if nme in seq.declared_channels and seq.is_in_eom_mode(nme) != c["eom"]:
                     ctx.violation("query", f"is_in_eom_mode({nme})={seq.is_in_eom_mode(nme)}, model {c['eom']}", "query:is_in_eom_mode")
@@ -146,6 +165,8 @@ def _run_case(ctx, idx, rng, tier):
             want = m.avail_channel_ids()
             if got != want:
                 ctx.violation("query", f"available channel ids {sorted(got)} but the mode admits {sorted(want)}", "query:available_channels")
+        except Tainted:
+            raise
         except Exception as e:
             ctx.violation("query", f"query raised {e!r}", "query-raises")
         return ok
